@@ -101,17 +101,54 @@ def run(ctx: Ctx) -> None:
         return any(i.fn == GRAMMAR for i in t.instances())
 
     ma = MutationAnalysis(prog, res, depth=6 if ctx.tier == "thorough" else 4)
+    # fields that hold a part of the grammar: 'self.X = <alias of a grammar-owned value>' (a table kept "for speed") makes self.X the grammar's own
+    # object in every method of the class; taken only when every store to that field in the class is such an alias (a field that is sometimes a
+    # copy is left to the local analysis)
+    from ..mutation import INF as _INF
+    from ..astutil import is_self_attr as _isa
+    field_stores: dict[tuple, list] = {}
+    for f in prog.functions.values():
+        if f.cls is None or f.parent is not None or in_construction(f) or prog.is_subclass(f.cls, GRAMMAR):
+            continue
+        for a_ in walk_local(f.node):
+            if isinstance(a_, ast.Assign) and len(a_.targets) == 1 and _isa(a_.targets[0]):
+                field_stores.setdefault((f.cls.fullname, a_.targets[0].attr), []).append((f, a_.value))
+            elif isinstance(a_, ast.AnnAssign) and a_.value is not None and _isa(a_.target):
+                field_stores.setdefault((f.cls.fullname, a_.target.attr), []).append((f, a_.value))
+    alias_fields: dict[tuple, str] = {}
+    for key_, lst_ in sorted(field_stores.items()):
+        if not any(isinstance(x_, (ast.Name, ast.Attribute)) and is_grammar(f_, x_) for f_, rhs_ in lst_ for x_ in ast.walk(rhs_)):
+            continue
+        depths = []
+        for f_, rhs_ in lst_:
+            if isinstance(rhs_, (ast.Name, ast.Attribute)) and is_grammar(f_, rhs_):
+                depths.append(None)       # the grammar itself: already a root by its type
+                continue
+            ma.probes.pop(id(rhs_), None)
+            ma.analyse(f_, {}, is_grammar, probes=[rhs_])
+            depths.append(ma.probes.get(id(rhs_), _INF))
+        if depths and all(d_ == 0 for d_ in depths):
+            alias_fields[key_] = f"{lst_[0][0].qualname}: self.{key_[1]} = {norm(lst_[0][1])[:50]}"
+    ctx.extra["fields_aliasing_grammar_parts"] = {f"{k_[0]}.{k_[1]}": v_ for k_, v_ in alias_fields.items()}
+
+    def is_owned(fn: FunctionInfo, e: ast.AST) -> bool:
+        if is_grammar(fn, e):
+            return True
+        if alias_fields and isinstance(e, ast.Attribute) and _isa(e) and fn.cls is not None:
+            return any((k_.fullname, e.attr) in alias_fields for k_ in prog.mro(fn.cls))
+        return False
+
     n_fn = n_roots = 0
     for f in sorted(prog.functions.values(), key=lambda x: x.fullname):
         if in_construction(f) or f.parent is not None:
             continue
         # does the function see a grammar at all?
-        sees = [e for e in walk_local(f.node, include_nested=True) if isinstance(e, (ast.Name, ast.Attribute)) and is_grammar(f, e)]
+        sees = [e for e in walk_local(f.node, include_nested=True) if isinstance(e, (ast.Name, ast.Attribute)) and is_owned(f, e)]
         if not sees:
             continue
         n_fn += 1
         n_roots += len(sees)
-        muts = ma.analyse(f, {}, is_grammar)
+        muts = ma.analyse(f, {}, is_owned)
         if not muts:
             ctx.ob("C10.R1", f, f.node, "no mutation of a Grammar-owned value", True, f"{len(sees)} grammar-typed expressions inspected")
         for m in muts:
